@@ -1,6 +1,7 @@
 CONSTANTS
 NS = 2
 MaxEv = 6
+MaxUA = 2
 AllowConnLost = TRUE
 Mutant = 0
 INIT Init
